@@ -386,6 +386,49 @@ func init() {
 		}
 		return iface{it.t, c}, true
 	}
+	// ASCII case mapping on strings with symbolic bytes, branch-free (the std versions
+	// fork per letter); non-ASCII symbolic bytes fall back to interpreting the real code
+	caseMap := func(toLower bool) externalFn {
+		return func(fr *frame, a []value) (value, bool) {
+			s, ok := a[0].(sstr)
+			if !ok {
+				return nil, false
+			}
+			out := make([]value, len(s.b))
+			for i, b := range s.b {
+				switch c := b.(type) {
+				case uint8:
+					if c >= 0x80 {
+						return nil, false
+					}
+					if toLower && 'A' <= c && c <= 'Z' {
+						c += 32
+					} else if !toLower && 'a' <= c && c <= 'z' {
+						c -= 32
+					}
+					out[i] = c
+				case *Term:
+					if c.hi == nil || c.hi.Cmp(bi(127)) > 0 || c.lo == nil || c.lo.Sign() < 0 {
+						return nil, false
+					}
+					var t *Term
+					if toLower {
+						t = mkIte(mkAnd(mkLe(mkConstI('A'), c), mkLe(c, mkConstI('Z'))), mkAdd(c, mkConstI(32)), c)
+					} else {
+						t = mkIte(mkAnd(mkLe(mkConstI('a'), c), mkLe(c, mkConstI('z'))), mkAdd(c, mkConstI(-32)), c)
+					}
+					if t.op == OpConst {
+						out[i] = uint8(t.c.Uint64())
+					} else {
+						out[i] = t
+					}
+				}
+			}
+			return mkSstr(out), true
+		}
+	}
+	ext["strings.ToLower"] = caseMap(true)
+	ext["strings.ToUpper"] = caseMap(false)
 	ext["internal/abi.NoEscape"] = func(fr *frame, a []value) (value, bool) { return a[0], true }
 	ext["runtime.Callers"] = func(fr *frame, a []value) (value, bool) { return 0, true }
 	ext["runtime.KeepAlive"] = func(fr *frame, a []value) (value, bool) { return nil, true }
